@@ -13,6 +13,7 @@ import regex as re
 
 from pest.grammar import Expression
 from pest.grammar.expression import RegexExpression
+from pest.grammar.expressions.terminals import ascii_insensitive_pattern
 from pest.grammar.rules.unicode import UnicodePropertyRule
 
 if TYPE_CHECKING:
@@ -225,10 +226,12 @@ def build_optimized_pattern(choices: list[ChoiceChoice], repeat: str = "") -> st
             case UnicodePropertyRule(expression=RegexExpression(pattern=pattern)):
                 unicode_props.append(pattern)
             case ChoiceLiteral(value=val, case=ChoiceCase.INSENSITIVE) if len(val) == 1:
-                char_class_parts.append(val.upper())
-                char_class_parts.append(val.lower())
+                char_class_parts.append(val)
+                if val.isascii():
+                    # Only ASCII case is ignored.
+                    char_class_parts.append(val.swapcase())
             case ChoiceLiteral(value=val, case=ChoiceCase.INSENSITIVE):
-                insensitive_parts.append(f"(?i:{re.escape(val)})")
+                insensitive_parts.append(ascii_insensitive_pattern(val))
             case ChoiceLiteral(value=val, case=ChoiceCase.SENSITIVE) if len(val) == 1:
                 char_class_parts.append(val)
             case ChoiceLiteral(value=val, case=ChoiceCase.SENSITIVE):
